@@ -10,6 +10,8 @@ import (
 	. "github.com/vektah/gqlparser/v2/validator"
 )
 
+import "github.com/vektah/gqlparser/v2/verifhook"
+
 var SingleFieldSubscriptionsRule = Rule{
 	Name: "SingleFieldSubscriptions",
 	RuleFunc: func(observers *Events, addError AddErrFunc) {
@@ -58,6 +60,7 @@ func retrieveTopFieldNames(selectionSet ast.SelectionSet) []*topField {
 	inFragmentRecursive := map[string]bool{}
 	var walk func(selectionSet ast.SelectionSet)
 	walk = func(selectionSet ast.SelectionSet) {
+		verifhook.Step(verifhook.SiteSubscriptionTopFields)
 		for _, selection := range selectionSet {
 			switch selection := selection.(type) {
 			case *ast.Field:
